@@ -42,4 +42,119 @@ Proof.
   all: try (intros q0 X; inversion X; subst; auto; fail).
   all: try (destruct b; cbn [pc_target]; intros q0 X; inversion X; auto; fail).
   all: try (intros q0 X; inversion X; subst; right; left; eapply nth_error_In; eauto; fail).
+  right; left. cbn. auto.
+Qed.
+
+Lemma live_iff : forall h q, live h q = true <-> In q (h_evq h) \/ q = h_active h.
+Proof.
+  intros. unfold live. rewrite orb_true_iff, Nat.eqb_eq. split; intros [H|H]; auto.
+  - left. apply existsb_exists in H. destruct H as (x & Hx & E). apply Nat.eqb_eq in E. subst. exact Hx.
+  - left. apply existsb_exists. exists q. split; [exact H|apply Nat.eqb_refl].
+Qed.
+
+Definition opening0 (thr : list thread) : Prop :=
+  exists th0, nth_error thr 0 = Some th0 /\ is_opening (t_pc th0) = true.
+
+Record linv (st : cstate) : Prop := {
+  l_sub : subinv st;
+  l_ok : forall t th, nth_error (c_thr st) t = Some th -> okthread th = true;
+  l_fq : h_fq (c_sh st) = false;
+  l_pend : forall x, In x (h_pend (c_sh st)) -> live (c_sh st) (fst x) = true;
+  l_tgt : forall t th q, nth_error (c_thr st) t = Some th -> pc_target (t_pc th) = Some q -> live (c_sh st) q = true;
+  l_act : In (h_active (c_sh st)) (h_evq (c_sh st)) \/ opening0 (c_thr st);
+  l_drop : h_drop (c_sh st) = [];
+  l_held : forall t th, nth_error (c_thr st) t = Some th -> thr_held th = []
+}.
+
+Lemma linv_step : forall t st, linv st -> linv (step t st).
+Proof.
+  intros t st L. pose proof (subinv_step t st (l_sub _ L)) as S'.
+  destruct (step_cases t st) as [E|(l1 & th & l2 & th' & h' & Hl & Hn & Ht & E)].
+  { now rewrite E. }
+  rewrite E in *. destruct st as [thr h]. cbn [c_thr c_sh] in *. subst thr. subst t.
+  assert (Hu : nth_error (l1 ++ th :: l2) (length l1) = Some th) by apply nth_error_mid.
+  destruct L as [LS LO LF LP LT LA LD LH]. cbn [c_thr c_sh] in *.
+  destruct (tstep_live _ _ _ _ _ Ht LF (LO _ _ Hu)) as (O' & F' & D' & H' & Ev & Pe & Tg & Op).
+  assert (U0 : submit_thread th = false -> length l1 = 0).
+  { intros X. destruct (Nat.eq_dec (length l1) 0); auto. rewrite (LS _ _ Hu n) in X. discriminate. }
+  assert (Mono : forall q, live h q = true -> live h' q = true).
+  { intros q Hq. apply live_iff in Hq. apply live_iff.
+    destruct Ev as [(A & B & _)|[(A & B & C & D)|(A & B & C)]].
+    - rewrite A, B. exact Hq.
+    - rewrite C. left. destruct Hq as [Hq|Hq]; [exact Hq|]. subst q.
+      destruct LA as [LA|(th0 & H0 & Ho)]; [exact LA|]. exfalso.
+      specialize (U0 D). destruct l1; [|discriminate U0]. cbn in H0. inversion H0; subst. congruence.
+    - rewrite B, C. destruct Hq as [Hq|Hq]; [left; apply in_or_app; left; exact Hq|right; exact Hq]. }
+  split; cbn [c_thr c_sh]; auto.
+  - intros n thn Hnth. destruct (nth_mid_cases l1 th _ _ _ _ Hnth) as [(-> & ->)|(Ne & Hn')]; eauto.
+  - intros x Hx. apply Mono. destruct (Pe _ Hx) as [X|X]; [apply LP; exact X|eapply LT; eauto].
+  - intros n thn q Hnth Hq. apply Mono.
+    destruct (nth_mid_cases l1 th _ _ _ _ Hnth) as [(-> & ->)|(Ne & Hn')]; [|eapply LT; eauto].
+    destruct (Tg _ Hq) as [X|X]; [eapply LT; eauto|apply live_iff; exact X].
+  - destruct Ev as [(A & B & C)|[(A & B & C & D)|(A & B & C)]].
+    + rewrite A, B. destruct LA as [LA|(th0 & H0 & Ho)]; [left; exact LA|right].
+      destruct l1 as [|x l1]; cbn [app nth_error] in *.
+      * inversion H0; subst. exists th'. split; [reflexivity|auto].
+      * exists th0. auto.
+    + right. specialize (U0 D). destruct l1; [|discriminate U0]. exists th'. cbn. auto.
+    + left. rewrite B, C. apply in_or_app. right. left. reflexivity.
+  - congruence.
+  - intros n thn Hnth. destruct (nth_mid_cases l1 th _ _ _ _ Hnth) as [(-> & ->)|(Ne & Hn')]; eauto.
+Qed.
+
+Lemma submit_ok : forall p, forallb is_submit p = true -> forallb okact p = true.
+Proof.
+  induction p as [|a p IH]; cbn; auto. intros H. apply andb_true_iff in H. destruct H as [A B].
+  destruct a; try discriminate A. cbn. auto.
+Qed.
+
+Lemma linv_init : forall progs, submitters_only progs -> no_close_quit progs -> linv (init progs).
+Proof.
+  intros progs S N. split.
+  - apply subinv_init. exact S.
+  - intros t th H. cbn [init c_thr] in H. rewrite nth_error_map in H.
+    destruct (nth_error progs t) as [p|] eqn:E; inversion H; subst.
+    unfold okthread. cbn. rewrite (N _ _ E). reflexivity.
+  - reflexivity.
+  - cbn. contradiction.
+  - intros t th q H Hq. rewrite (init_nth _ _ _ H) in Hq. discriminate.
+  - left. cbn. left. reflexivity.
+  - reflexivity.
+  - intros t th H. unfold thr_held. rewrite (init_nth _ _ _ H). reflexivity.
+Qed.
+
+Lemma filter_all : forall {A} (f : A -> bool) l, (forall x, In x l -> f x = true) -> filter f l = l.
+Proof.
+  induction l as [|a l IH]; intros H; [reflexivity|]. cbn. rewrite (H a) by (left; reflexivity).
+  f_equal. apply IH. intros x Hx. apply H. right. exact Hx.
+Qed.
+Lemma filter_none : forall {A} (f : A -> bool) l, (forall x, In x l -> f x = true) -> filter (fun x => negb (f x)) l = [].
+Proof.
+  induction l as [|a l IH]; intros H; [reflexivity|]. cbn. rewrite (H a) by (left; reflexivity). cbn.
+  apply IH. intros x Hx. apply H. right. exact Hx.
+Qed.
+Lemma flat_map_nil : forall {A B} (f : A -> list B) l, (forall x, In x l -> f x = []) -> flat_map f l = [].
+Proof.
+  induction l as [|a l IH]; intros H; [reflexivity|]. cbn. rewrite (H a) by (left; reflexivity).
+  apply IH. intros x Hx. apply H. right. exact Hx.
+Qed.
+
+(* "_partial": the hypothesis that no level is closed or force-quit while submissions are in flight is needed (F10) *)
+Theorem all_dispatched_partial : forall progs sch, submitters_only progs -> no_close_quit progs ->
+  let st := steps sch (init progs) in
+  pending_dead st = [] /\ held st = [] /\ h_drop (c_sh st) = [] /\ h_fq (c_sh st) = false /\
+  Permutation (unput st ++ pending_live st ++ h_disp (c_sh st)) (all_sids progs).
+Proof.
+  intros progs sch S N st.
+  assert (L : linv st).
+  { unfold st. apply steps_inv; [apply linv_step|apply linv_init; assumption]. }
+  assert (Hd : pending_dead st = []).
+  { unfold pending_dead. rewrite (filter_none (fun x => live (c_sh st) (fst x))); [reflexivity|]. apply (l_pend _ L). }
+  assert (Hh : held st = []).
+  { unfold held. apply flat_map_nil. intros th Hth. apply In_nth_error in Hth. destruct Hth as (n & Hn). eapply (l_held _ L); eauto. }
+  assert (Hl : pending_live st = pending st).
+  { unfold pending_live, pending. rewrite (filter_all (fun x => live (c_sh st) (fst x))); [reflexivity|]. apply (l_pend _ L). }
+  repeat split; auto; try apply (l_drop _ L); try apply (l_fq _ L).
+  pose proof (conservation progs sch) as C. fold st in C. unfold places in C.
+  rewrite Hh, (l_drop _ L), app_nil_r in C. cbn [app] in C. rewrite Hl. exact C.
 Qed.
